@@ -209,13 +209,6 @@ def single_key(ctx, n, coin, kind, compressed, shape, hash_types=None, keys=None
         ctx.check(not tx.is_solution_ok(idx, flags=flags), "unsigned-input-does-not-validate")
         lookup = net.tx.solve.build_hash160_lookup([d])
         p2sh = net.tx.solve.build_p2sh_lookup(redeem)
-        import os
-        if os.environ.get("C05_DEBUG"):
-            import traceback
-            try:
-                print("SOLVE ->", tx.Solver(tx).solve(lookup, idx, hash_type=hash_type, p2sh_lookup=p2sh))
-            except BaseException:
-                traceback.print_exc()
         try:
             tx.sign(lookup, hash_type=hash_type, p2sh_lookup=p2sh)
         except Exception as e:
@@ -223,14 +216,6 @@ def single_key(ctx, n, coin, kind, compressed, shape, hash_types=None, keys=None
             ctx.check(False, "sign-does-not-raise")
         ok = tx.is_solution_ok(idx, flags=flags)
         if not ok:
-            import os
-            if os.environ.get("C05_DEBUG"):
-                import traceback
-                print("SCRIPT", tx.txs_in[idx].script, tx.txs_in[idx].witness)
-                try:
-                    tx.check_solution(idx, flags=flags)
-                except BaseException as e:
-                    traceback.print_exc()
             try:
                 tx.check_solution(idx, flags=flags)
             except Exception as e:
